@@ -505,69 +505,4 @@ Proof.
   { apply stops_render_dec_app. intros d Hd. unfold not_digit. rewrite Hd. reflexivity. }
   rewrite (drop_while_stops_id _ _ Hs). cbv zeta.
   rewrite match_nonempty by apply render_app_nonempty.
-  rewrite (take_while_app is_digit _ _ (render_dec_digits port) (ext_stops_digit sub chan cls Hc)).
-  rewrite render_dec_val.
-  rewrite !find_after_skip by (apply digits_all; intros x Hx; unfold not_char; rewrite ?(digit_not_dot x Hx), ?(digit_not_colon x Hx); reflexivity).
-  rewrite ext_find_dot, ext_find_colon by assumption.
-  rewrite ext_find_class by (try assumption; apply render_dec_ends).
-  unfold update_state. simpl. rewrite class_restore by assumption. reflexivity.
-Qed.
-
-Definition number_long (sl : N) (card : option N) (port : N) : str :=
-  render_dec sl ++ c_slash :: match card with Some cd => render_dec cd ++ c_slash :: render_dec port | None => render_dec port end.
-
-Lemma number_long_ends sl card port : ends_digit (number_long sl card port).
-Proof.
-  unfold number_long. apply ends_digit_app. change (c_slash :: ?x) with ([c_slash] ++ x). apply ends_digit_app.
-  destruct card as [cd|]; [|apply render_dec_ends]. apply ends_digit_app.
-  change (c_slash :: render_dec port) with ([c_slash] ++ render_dec port). apply ends_digit_app, render_dec_ends.
-Qed.
-
-Lemma number_long_all (P : char -> bool) sl card port :
-  (forall d, is_digit d = true -> P d = true) -> P c_slash = true -> forallb P (number_long sl card port) = true.
-Proof.
-  intros Hd Hs. unfold number_long. rewrite forallb_app', digits_all by assumption. simpl. rewrite Hs. simpl.
-  destruct card as [cd|]; [|apply digits_all; assumption]. rewrite forallb_app', digits_all by assumption. simpl. rewrite Hs.
-  apply digits_all; assumption.
-Qed.
-
-Lemma parse_long_ok pre sl card port sub chan cls :
-  class_ok cls ->
-  parse_long pre (number_long sl card port ++ ext_of sub chan cls) =
-  Ok (mk_intf (strip pre) (Some [c_slash]) (Some sl) card port sub chan cls).
-Proof.
-  intros Hc. unfold parse_long.
-  set (e := ext_of sub chan cls).
-  assert (He1 : stops is_digit e) by (apply ext_stops_digit; assumption).
-  assert (He2 : stops is_sep e) by (apply ext_stops_sep; assumption).
-  (* scanning of the numbers *)
-  assert (Hfa : forall m, (forall d, is_digit d = true -> N.eqb d m = false) -> N.eqb c_slash m = false ->
-                find_after m (number_long sl card port ++ e) = find_after m e).
-  { intros m H1 H2. apply find_after_skip. apply number_long_all.
-    - intros d Hd. unfold not_char. rewrite (H1 d Hd). reflexivity.
-    - unfold not_char. rewrite H2. reflexivity. }
-  rewrite (Hfa c_dot digit_not_dot eq_refl), (Hfa c_colon digit_not_colon eq_refl).
-  unfold e at 3 4. rewrite ext_find_dot, ext_find_colon by assumption.
-  rewrite (ext_find_class sub chan cls Hc _ (number_long_ends sl card port)).
-  unfold number_long. rewrite <- !app_assoc. cbn [app].
-  rewrite take_while_app by (try apply render_dec_digits; reflexivity).
-  rewrite drop_while_app by (try apply render_dec_digits; reflexivity).
-  destruct (render_dec sl) as [|s0 sr] eqn:Esl; [exfalso; apply (render_dec_nonempty sl Esl)|]. rewrite <- Esl.
-  cbn [opt_sep]. change (is_sep c_slash) with true. cbv iota.
-  destruct card as [cd|].
-  - rewrite <- !app_assoc. cbn [app].
-    rewrite take_while_app by (try apply render_dec_digits; reflexivity).
-    rewrite drop_while_app by (try apply render_dec_digits; reflexivity).
-    cbn [opt_sep]. change (is_sep c_slash) with true. cbv iota.
-    rewrite take_while_app by (try apply render_dec_digits; assumption).
-    unfold opt_digits.
-    destruct (render_dec cd) as [|c0 cr] eqn:Ecd; [exfalso; apply (render_dec_nonempty cd Ecd)|]. rewrite <- Ecd.
-    destruct (render_dec port) as [|p0 pr] eqn:Ep; [exfalso; apply (render_dec_nonempty port Ep)|]. rewrite <- Ep.
-    rewrite !render_dec_val. unfold update_state. simpl. rewrite class_restore by assumption. reflexivity.
-  - rewrite take_while_app by (try apply render_dec_digits; assumption).
-    rewrite drop_while_app by (try apply render_dec_digits; assumption).
-    rewrite (opt_sep_stops e He2). rewrite (take_while_stops is_digit e He1).
-    unfold opt_digits.
-    destruct (render_dec port) as [|p0 pr] eqn:Ep; [exfalso; apply (render_dec_nonempty port Ep)|]. rewrite <- Ep.
-    rewrite !render_dec_val. unfold update_state. simpl. rewrite class_restore by assumption. reflexivity.
-Qed.
+Show.
